@@ -261,6 +261,12 @@ def run(ctx):
            f'the lock order graph ({len(edges)} edges: {sorted(edges)}) has no cycle', cyc is None, f'cycle: {cyc}')
     ctx.floor('C15.R4', len(fn_locks), 8, 'functions acquiring a lock')
 
+    # ---- R6 ----------------------------------------------------------------------
+    _publish_once(ctx)
+
+    # ---- R7 ----------------------------------------------------------------------
+    _class_mark_last(ctx)
+
     # ---- R5 ----------------------------------------------------------------------
     global_patches(ctx, 'C15.R5')
 
@@ -391,3 +397,51 @@ def global_patches(ctx, rule):
                                        False, f'`{norm(a)[:90]}` replaces a global that other threads\' imports read without '
                                        f'any lock')
     ctx.floor(rule, n, 1, 'assignments to attributes of foreign modules')
+
+
+def _publish_once(ctx):
+    """R6: a lazily computed attribute of a shared object is published by one plain assignment of the finished value."""
+    repo = ctx.repo
+    ctx.rule('C15.R6', 'a lazily computed attribute of an object shared between threads (configurations are singletons) is published '
+             'once: wherever a method computes self.X under `if self.X is None:`, the guarded block stores self.X exactly once, by '
+             'a plain assignment (no augmented assignment, no second store) — a value assembled in place in the shared attribute '
+             'is visible half-built to a thread that passes the guard meanwhile')
+    n = 0
+    for mn, m in sorted(repo.modules.items()):
+        for fn in [x for x in ast.walk(m.tree) if isinstance(x, (ast.FunctionDef, ast.AsyncFunctionDef))]:
+            for st in ast.walk(fn):
+                if not (isinstance(st, ast.If) and isinstance(st.test, ast.Compare) and len(st.test.ops) == 1
+                        and isinstance(st.test.ops[0], ast.Is) and isinstance(st.test.left, ast.Attribute)
+                        and dotted(st.test.left.value) in ('self', 'cls') and isinstance(st.test.comparators[0], ast.Constant)
+                        and st.test.comparators[0].value is None):
+                    continue
+                attr = st.test.left.attr
+                stores = [x for b in st.body for x in ast.walk(b) if isinstance(x, (ast.Assign, ast.AugAssign, ast.AnnAssign)) and any(
+                    isinstance(t, ast.Attribute) and t.attr == attr and dotted(t.value) in ('self', 'cls')
+                    for t in (x.targets if isinstance(x, ast.Assign) else [x.target]))]
+                if not stores:
+                    continue
+                n += 1
+                ok = len(stores) == 1 and isinstance(stores[0], (ast.Assign, ast.AnnAssign))
+                ctx.ob('C15.R6', f'publish-once:{mn.rsplit(".", 1)[-1]}.{qualname_of(fn)}:{attr}', m.where(stores[0]),
+                       'the lazily computed attribute is stored once, complete', ok,
+                       f'{len(stores)} stores into self.{attr} under the guard ({", ".join(type(x).__name__ for x in stores)})')
+    ctx.floor('C15.R6', n, 1, 'lazily computed shared attributes')
+
+
+def _class_mark_last(ctx):
+    """R7: publication order of the "class already decorated" mark (the obligation is decided by C13's interpretation of
+    beartype_type; a thread that sees the mark returns the class as it is)."""
+    from sa import report
+    from . import c13
+    ctx.rule('C15.R7', 'a class is marked "already decorated" only after all its members were decorated and replaced: two threads '
+             'decorating one class must not let the second return a class whose methods are still unchecked (the obligation '
+             '"marks-the-class-last" of the interpreted beartype_type, imported from C13.R5)')
+    sub = report.Ctx('C13', ctx.repo, tier=ctx.tier, seed=ctx.seed)
+    c13._class_route(sub)
+    n = 0
+    for o in sub.obs:
+        if ':marks-the-class-last:' in o.key:
+            n += 1
+            ctx.ob('C15.R7', o.key, o.where, o.desc, o.ok, o.detail)
+    ctx.floor('C15.R7', n, 3, 'class decorations interpreted')
